@@ -27,11 +27,12 @@ fn setup<'a>(state: &'a DepthCell) -> (RPort<'a>, PortCfg, u8) {
 // @timeout 1500
 // @functions Port::handle_announce_receipt_timer, Port::set_forced_port_state, PortConfig::announce_duration
 // @bounds one step from an arbitrary port state (all five, Slave with arbitrary slots), slave-only on/off, arbitrary receipt timeout count, announce interval 2^0 s
-// @assume PortConfig::announce_duration replaced by its contract (timeout * interval * [1, 2]); the real floating-point code is compared against the same range by c12_announce_duration_real
+// @assume Interval::as_core_duration replaced by its integer equivalent and Duration::mul_f64 by its monotone contract (stubs.rs); the real floating-point announce_duration is compared against the resulting range by c12_announce_duration_real
 // @assume core::mem::swap replaced by a loop-free equivalent (common.rs: swap_stub)
 #[kani::proof]
 #[kani::unwind(9)]
-#[kani::stub(crate::config::PortConfig::announce_duration, crate::verif_root::stubs::announce_duration_contract)]
+#[kani::stub(crate::time::Interval::as_core_duration, crate::verif_root::stubs::as_core_duration_int)]
+#[kani::stub(core::time::Duration::mul_f64, crate::verif_root::stubs::mul_f64_contract)]
 #[kani::stub(core::mem::swap, super::common::swap_stub)]
 fn c12_announce_receipt_timer() {
     let state = any_state(0);
@@ -48,7 +49,7 @@ fn c12_announce_receipt_timer() {
     } else {
         assert!(post == ST_MASTER, "C12: a port that may be master must become master when the receipt timer fires");
         assert!(d.n == 2 && d.reset_announce == 1 && d.reset_sync == 1, "C12: master without armed announce / sync timers is silent forever");
-        assert!(d.dur_announce == core::time::Duration::ZERO && d.dur_sync == core::time::Duration::ZERO);
+        assert!(d.dur_announce == core::time::Duration::from_secs(0) && d.dur_sync == core::time::Duration::from_secs(0));
     }
     // C08-4 / C13: leaving slave (or faulty) hands the servo its one final command, nothing else touches the clock
     let left = (code == ST_SLAVE || code == ST_FAULTY) && post != code;
@@ -176,3 +177,4 @@ fn c12_announce_duration_real() {
     }
     kani::cover!(true, "nine evaluations");
 }
+
